@@ -165,6 +165,12 @@ def norm(t):
         if r != ("proj", inner, path):
             return norm(r)
         return ("proj", inner, path)
+    if t[0] == "place" and len(t) == 2 and isinstance(t[1], str):
+        parts = t[1].split(".")
+        cur = ("param", parts[0])
+        for f in parts[1:]:
+            cur = ("fieldof", cur, f)
+        return cur
     if t[0] == "call" and t[1] in TRANSPARENT and len(t[2]) == 1:
         return norm(t[2][0])
     if t[0] in ("ref", "deref", "borrow") and len(t) == 2:
@@ -239,7 +245,8 @@ def cond_tests(c, pol):
         if c[0] == "lit" and isinstance(c[1], bool):
             return [] if c[1] == pol else False
         if c[0] == "survived":
-            return cond_tests(c[1], pol)
+            r = cond_tests(c[1], pol)
+            return r if r is False else [("survived", t) for t in r]   # an earlier exit of the function was not taken
         if c[0] == "op" and c[1] == "Not":
             return cond_tests(c[2], not pol)
         if c[0] == "matches":
@@ -462,10 +469,28 @@ def _iter(it):
             return n + n2, e2
         if it[1] in PASS_THROUGH and it[2]:
             return _iter(it[2][0])
+        if it[1] == "Iterator::filter" and len(it[2]) == 2 and _FILTERS is not None:
+            n, e = _iter(it[2][0])
+            _FILTERS.append((_apply(it[2][1], e), True))
+            return n, e
         if it[1] == "Iterator::enumerate" and len(it[2]) == 1:
             n, e = _iter(it[2][0])
             return n, ("list", (("idx", it[2][0]), e))
     return [it], ("each", it)
+
+
+_FILTERS = None
+
+
+def loop_nest_filtered(loops):
+    """like loop_nest, with `filter(p)` adaptors turned into conditions on the element: (nest, mapping, [(condition term, True), ...])"""
+    global _FILTERS
+    _FILTERS = []
+    try:
+        nest, mapping = loop_nest(loops)
+        return nest, mapping, list(_FILTERS)
+    finally:
+        _FILTERS = None
 
 
 def loop_nest(loops):
@@ -484,6 +509,20 @@ def over_all(loops, root, t):
     """when the loop stack `loops` is exactly one pass over every element of `root` (through order- and cardinality-preserving adaptors:
     map, enumerate, inspect, ...): the term t with the loop element expressed over ('each', root); else None"""
     nest, mapping = loop_nest(loops)
-    if nest != [root]:
+    if [norm(n) for n in nest] != [norm(root)]:
         return None
     return norm(replace(t, mapping))
+
+
+def bool_leaves(t, tests=()):
+    """leaves of a boolean-valued term, with an opaque boolean at the end of a path split into its two outcomes"""
+    out = []
+    for ts, x in leaves(t, tests):
+        if isinstance(x, tuple) and x[:1] == ("lit",) and isinstance(x[1], bool):
+            out.append((ts, x))
+            continue
+        for pol in (True, False):
+            r = cond_tests(x, pol)
+            if r is not False:
+                out.append((tuple(ts) + tuple(r), ("lit", pol)))
+    return out
